@@ -27,7 +27,7 @@ TRUSTED_BASE = [
     "Lean 4.33.0 kernel; Mathlib v4.33.0 as compiled on this image",
     "axioms allowed in property theorems: propext, Classical.choice, Quot.sound (audited with #print axioms on every run)",
     "hand-written executable model lean/Ds/*.lean: tied to /repo only by this run's correspondence (differential) check — validated, not verified",
-    "kernel functions (compute_all_importances, compute_all_importances_cy, get_test_batch_size) and the control skeleton of _shapley_bruteforce: lean/Gen/Kernel.lean and lean/GenB/Brute.lean are REGENERATED from /repo's source by harness/translate.py / translate_skel.py on every run and proved equal to the model (lean/Tie, lean/TieB); trusted there: the translators and the meaning of the numpy/Python primitives in lean/Ds/Np.lean (exercised against the implementation by the C13 and C03 checks); argsort, provenance.query and the body of the try block are parameters",
+    "kernel functions (compute_all_importances, compute_all_importances_cy, get_test_batch_size) and the control skeleton of _shapley_bruteforce, one permutation walk of _shapley_montecarlo, the JointUtility methods: lean/Gen*/ are REGENERATED from /repo's source by harness/translate*.py on every run and proved equal to the model (lean/Tie*); trusted there: the translators and the meaning of the numpy/Python primitives in lean/Ds/Np.lean (exercised against the implementation by the C13 and C03 checks); argsort, provenance.query and the body of the try block are parameters",
     "NumPy/scikit-learn/pandas/CPython/Cython/gcc behaviour: modelled as parameters (argsort order, LabelEncoder = sorted distinct, accuracy_score, roc_auc_score on hard predictions, comb, connected_components, RandomState permutations, time.time readings)",
     "IEEE-754 rounding is executed (Float instance) and measured, never reasoned about",
     "the harness: generators, canonicalisation, tolerance 1e-9*(1+scale), exception-class mapping, Fraction by-definition evaluators",
@@ -81,6 +81,7 @@ class Ctx:
         self.driver = None
         self.gendriver = None
         self.genbdriver = None
+        self.genmdriver = None
         self.theorems = []
         self.axioms = {}
         self.extra = {}
@@ -99,6 +100,8 @@ class Ctx:
                 self.gendriver = leanio.GenDriver()
             if "brute" in ties and os.environ.get("VERIF_TIE_OK_brute") == "1" and os.path.exists(leanio.GENBDRIVER):
                 self.genbdriver = leanio.GenBDriver()
+            if "mcwalk" in ties and os.environ.get("VERIF_TIE_OK_mcwalk") == "1" and os.path.exists(leanio.GENMDRIVER):
+                self.genmdriver = leanio.GenMDriver()
             self.lean_ok = self.driver is not None
             return
         ok, log, secs = leanio.build()
@@ -145,6 +148,8 @@ class Ctx:
                 self.gendriver = leanio.GenDriver()
             if tie["ok"] and tname == "brute" and os.path.exists(leanio.GENBDRIVER):
                 self.genbdriver = leanio.GenBDriver()
+            if tie["ok"] and tname == "mcwalk" and os.path.exists(leanio.GENMDRIVER):
+                self.genmdriver = leanio.GenMDriver()
         if problems:
             self.lean_problem = problems
         if ok and os.path.exists(leanio.DRIVER):
@@ -162,6 +167,12 @@ class Ctx:
         if self.genbdriver is None:
             return None
         return self.genbdriver.ask(jsonable(req))
+
+    def genm(self, req):
+        """run the TRANSLATED Monte-Carlo walk (lean/GenM); None when it could not be translated / proved"""
+        if self.genmdriver is None:
+            return None
+        return self.genmdriver.ask(jsonable(req))
 
     def model(self, req):
         """ask the Lean model; None when the model cannot be built."""
@@ -283,6 +294,8 @@ class Ctx:
             self.gendriver.close()
         if self.genbdriver:
             self.genbdriver.close()
+        if self.genmdriver:
+            self.genmdriver.close()
         shutil.rmtree(self.work, ignore_errors=True)
 
 
